@@ -641,3 +641,74 @@ Definition as_dict_any (valid : list bytes) (resolve : bytes -> callee) (attrs :
       if existsb (fun n => negb (name_valid valid n)) req then (q, Exc ValueError)
       else as_dict valid resolve (AColl (strs_of req)) q
   end.
+
+(* ------------------------------------------------------------------ several Process objects: copies *)
+(* copy.copy(p) / copy.deepcopy(p) / pickle round trip of a Process object.  What the new object shares with the
+   old one is a property of the tree (probed on every run, coq/Gen/C16_Tables.v):
+     cd_shared      the copy refers to the SAME platform object p._proc (so _proc._cache is one cell for both)
+     cd_keep_front  the copy starts with the value p._cache had (the front-level dict of p's open block)
+     cd_keep_plat   (own platform object only) it starts with the value p._proc._cache had
+   The tree of record: copy.copy is the default shallow copy (shared, keep_front); deepcopy and pickle raise
+   TypeError (the RLock), and an operation that raises creates no object. *)
+Record cdesc := mkCd { cd_shared : bool; cd_keep_front : bool; cd_keep_plat : bool }.
+Record mobj := mkObj {
+  o_fptr : option nat;            (* this object's _cache attribute *)
+  o_gone : bool;                  (* this object's _gone *)
+  o_stk : list frame;             (* its open oneshot() context managers *)
+  o_plat : nat;                   (* which platform object it refers to *)
+  o_start : option nat }.         (* ghost: step at which its outermost open block was entered *)
+Record msq := mkM {
+  m_sh : shared;                  (* heap, lock, sources, clock; its fptr / pptr / gone_flag fields are scratch *)
+  m_plats : list (option nat);    (* _cache of each platform object *)
+  m_objs : list (option mobj);    (* None: the copy operation raised, there is no such object *)
+  m_time : nat;
+  m_tl : list (src -> sstate);    (* ghost: kernel state before each step, newest first *)
+  m_res : list (nat * nat * meth * outcome nat) }.   (* (step, object, method, answer), newest first *)
+(* MCopy o din dout: what the operation gives when some cache cell reachable from o is live (o._cache or
+   o._proc._cache exists: o, or an object sharing its platform object, is inside a block) / when none is
+   (None: it raises) *)
+Inductive mop := MOn (o : nat) (p : op) | MCopy (o : nat) (din dout : option cdesc).
+
+Definition view (ms : msq) (ob : mobj) : shared :=
+  let sh := m_sh ms in
+  mkShared (heap sh) (o_fptr ob) (nth (o_plat ob) (m_plats ms) None) (lock sh) (srcs sh) (o_gone ob) (clock sh).
+
+Definition op_meth (p : op) : meth := match p with OCall (CM m) => m | _ => Mname end.
+
+Definition mstep (ms : msq) (e : mop) : msq :=
+  let t := m_time ms in
+  let tl := srcs (m_sh ms) :: m_tl ms in
+  match e with
+  | MOn o p =>
+      match nth_error (m_objs ms) o with
+      | Some (Some ob) =>
+          let q' := sq_step (mkSq (view ms ob) (o_stk ob) []) p in
+          let sh' := q_sh q' in
+          let start := match q_stk q', o_stk ob with
+                       | [], _ => None
+                       | _ :: _, [] => Some t
+                       | _ :: _, _ :: _ => o_start ob
+                       end in
+          let ob' := mkObj (fptr sh') (gone_flag sh') (q_stk q') (o_plat ob) start in
+          mkM sh' (upd_nth (o_plat ob) (fun _ => pptr sh') (m_plats ms)) (upd_nth o (fun _ => Some ob') (m_objs ms))
+              (S t) tl
+              (match q_res q' with (a, _) :: _ => (t, o, op_meth p, a) :: m_res ms | [] => m_res ms end)
+      | _ => mkM (m_sh ms) (m_plats ms) (m_objs ms) (S t) tl (m_res ms)
+      end
+  | MCopy o din dout =>
+      match nth_error (m_objs ms) o, (match nth_error (m_objs ms) o with
+                                       | Some (Some ob) => match o_fptr ob, nth (o_plat ob) (m_plats ms) None with None, None => dout | _, _ => din end
+                                       | _ => None end) with
+      | Some (Some ob), Some cd =>
+          let f := if cd_keep_front cd then o_fptr ob else None in
+          if cd_shared cd
+          then mkM (m_sh ms) (m_plats ms) (m_objs ms ++ [Some (mkObj f (o_gone ob) [] (o_plat ob) None)]) (S t) tl (m_res ms)
+          else mkM (m_sh ms)
+                   (m_plats ms ++ [if cd_keep_plat cd then nth (o_plat ob) (m_plats ms) None else None])
+                   (m_objs ms ++ [Some (mkObj f (o_gone ob) [] (length (m_plats ms)) None)]) (S t) tl (m_res ms)
+      | _, _ => mkM (m_sh ms) (m_plats ms) (m_objs ms ++ [None]) (S t) tl (m_res ms)
+      end
+  end.
+Definition m_init (f : src -> sstate) : msq :=
+  mkM (init_shared f) [None] [Some (mkObj None false [] 0 None)] 0 [] [].
+Definition mrun (f : src -> sstate) (h : list mop) : msq := fold_left mstep h (m_init f).
